@@ -47,6 +47,7 @@ type CopyParams struct {
 	Faults      []FaultSpec    `json:"faults,omitempty"`      // explicit placement (resolved from picks on first run)
 	RegProfile  *RegProfile    `json:"reg_profile,omitempty"` // remote stores: capability profile of the simulated registries
 	MountFrom   bool           `json:"mount_from,omitempty"`  // remote destination: offer the sibling repository as mount source
+	MountList   int            `json:"mount_list,omitempty"`  // which candidate list MountFrom returns (see mountLists)
 	MountPre    []int          `json:"mount_pre,omitempty"`   // blobs the sibling repository of the destination registry holds
 	NetFaults   []NetFaultAt   `json:"net_faults,omitempty"`  // remote stores: failing HTTP exchanges (C02)
 }
@@ -193,6 +194,9 @@ func (p *copyProp) Gen(r *Rand, tier string, idx int) any {
 		}
 		if cp.DstKind == "remote" && r.Chance(0.4) {
 			cp.MountFrom = true
+			if r.Chance(0.5) {
+				cp.MountList = r.Intn(len(mountLists))
+			}
 			for _, n := range g.Nodes {
 				if !n.IsManif && r.Chance(0.5) {
 					cp.MountPre = append(cp.MountPre, n.ID)
@@ -304,7 +308,7 @@ func (p *copyProp) Gen(r *Rand, tier string, idx int) any {
 		}
 	}
 	// pre-populated destination: link-closed subset
-	if p.id != "C03" && r.Chance(0.6) {
+	if (p.id != "C03" && r.Chance(0.6)) || (p.id == "C03" && r.Chance(0.4)) {
 		set := map[int]bool{}
 		k := r.Intn(len(g.Nodes)/2 + 1)
 		for i := 0; i < k; i++ {
@@ -525,6 +529,16 @@ func expectedRoot(g *Graph, cp *CopyParams) (int, bool) {
 	return cp.Root, true
 }
 
+// mountLists: candidate repositories MountFrom offers; only simOther can hold the
+// blob, the others make the registry fall back to an upload.
+var mountLists = [][]string{
+	{simOther},
+	{"lib/empty", simOther},
+	{simOther, "lib/empty"},
+	{"lib/empty", "lib/void"},
+	{"lib/empty", "lib/void", simOther},
+}
+
 func setupStores(rc *RunCtx, g *Graph, cp *CopyParams) (*copyEnv, error) {
 	ctx := context.Background()
 	rc.regProfile = cp.RegProfile
@@ -632,7 +646,7 @@ func (env *copyEnv) exec2(rc *RunCtx, faults []FaultSpec, checks func(m *Monitor
 				if err := mon.callback("MountFrom", g.Lookup(d)); err != nil {
 					return nil, err
 				}
-				return []string{simOther}, nil
+				return mountLists[cp.MountList%len(mountLists)], nil
 			}
 		}
 		rootDesc := g.Nodes[cp.Root].Desc
